@@ -207,6 +207,31 @@ def run(eng, R):
                             multi = True
             R.ob("B3d", f.qualname, not in_loop and not multi, eng.where(f), "%s may evaluate the node function more than once per update" % f.qualname)
 
+    # ---- B9: a node depends on the nodes it was given (an alias of an alias is a parent of that alias, not of its target)
+    R.rule("B9", "node constructors store the nodes they are given as children unchanged: no argument is replaced by something reached through it (ref.ref, node.children …) "
+                 "before it becomes a child", 2)
+    for cls in family:
+        ini = cls.methods.get("__init__")
+        if ini is None:
+            continue
+        params = [a.arg for a in ini.node.args.args[1:]]
+        child_params = set()
+        for n in ast.walk(ini.node):
+            if isinstance(n, ast.Assign) and any(self_attr(t) in ("ref", "parameters", "_parameters", "_children") for t in n.targets):
+                child_params |= {x.id for x in ast.walk(n.value) if isinstance(x, ast.Name) and x.id in params}
+            if isinstance(n, ast.Call) and isinstance(n.func, ast.Attribute) and is_self(n.func.value) and n.func.attr in ("set_children", "add_child", "set_parents"):
+                child_params |= {x.id for a in n.args for x in ast.walk(a) if isinstance(x, ast.Name) and x.id in params}
+        for q in sorted(child_params):
+            bad = []
+            for n in ast.walk(ini.node):
+                if isinstance(n, ast.Assign) and any(isinstance(t, ast.Name) and t.id == q for t in n.targets):
+                    for x in ast.walk(n.value):
+                        if isinstance(x, (ast.Attribute, ast.Subscript)) and any(isinstance(y, ast.Name) and y.id == q for y in ast.walk(x.value)):
+                            bad.append("%s = %s" % (q, " ".join(ast.unparse(n.value).split())))
+            R.ob("B9", "%s.__init__:%s" % (cls.name, q), not bad, eng.where(ini),
+                 "%s.__init__ replaces its argument `%s` by something reached through it (%s) before storing it as a child: the node no longer depends on the node it was given "
+                 "(replacing or freezing that node is not seen)" % (cls.name, q, "; ".join(bad)))
+
     # ---- B8: update() leaves no stale child behind (dependency-only children included)
     R.rule("B8", "update() of a node whose children are not all function parameters brings every stale, non-frozen child up to date before it clears its own flag "
                  "(otherwise a fresh node sits above a stale child and later marks of that child are swallowed)", 1)
